@@ -704,4 +704,160 @@ theorem Good.extend {w : World} {os : List Nat} {ss : List (List Val)} (g : Good
       have h2 : j = w.vals.length := by omega
       rw [h1, h2]
 
+
+/-- the cloning branch of a method call, with `cloneBase`/`toPrimaryType` spelled out -/
+def derive (h : Heap) (recv : Val) (src : Val) : Heap × Val :=
+  match recv with
+  | .base a => (h ++ [cloneObj h a src], .base h.length)
+  | .ext ty a => (h ++ [cloneObj h a src, { cloneObj h a src with extTy := some ty }], .ext ty (h.length + 1))
+  | _ => (h, .nil)
+
+theorem call_eq_derive (h : Heap) (recv : Val) (m : Meth) (argv : Val)
+    (hc : (m.isConvert && (embedded argv).isSome) = false) :
+    call h recv m argv = derive h recv (m.srcArg argv) := by
+  unfold call callWith derive
+  cases recv with
+  | base a => simp [hc, cloneBase_eq]
+  | ext ty a => simp [hc, cloneBase_eq, alloc, obj]
+  | _ => rfl
+
+theorem call_convert_gerror (h : Heap) (recv : Val) (m : Meth) (argv : Val) (hr : isG recv = true)
+    (hc : (m.isConvert && (embedded argv).isSome) = true) : call h recv m argv = (h, argv) := by
+  unfold call callWith
+  cases recv with
+  | base a => simp [hc]
+  | ext ty a => simp [hc]
+  | _ => simp [isG, embedded] at hr
+
+theorem Good.deriveStep {w : World} {os : List Nat} {ss : List (List Val)} (g : Good w os ss)
+    {i : Nat} (hi : i < w.vals.length) (src : Val) (hs : src = .nil ∨ isForeign src = true) :
+    Good ⟨(GErrorIs.derive w.h (w.val i) src).1, w.vals ++ [(GErrorIs.derive w.h (w.val i) src).2]⟩ (os ++ [O os i])
+      (ss ++ [if src != .nil then S ss i ++ [src] else S ss i]) := by
+  obtain ⟨a, h1, h2, h3, h4, h5, h6⟩ := g.val i hi
+  have hgood := cloneObj_good g.wf h2 hs
+  have hsrcs : (cloneObj w.h a src).srcErrors = (if src != .nil then S ss i ++ [src] else S ss i) := by
+    simp [cloneObj, h3]
+  have hnn : (cloneObj w.h a src).factoryRef ≠ .nil := by
+    rcases g.wf.ref a with hr | ⟨r, hr, _, _, _⟩ <;> simp [cloneObj, hr]
+  have hinj : ∀ j b, j < w.vals.length → embedded (w.val j) = some b → origin w.h a = origin w.h b →
+      O os i = O os j := fun j b hj hb ho => g.inj i j a b hi hj h1 hb ho
+  cases hv : w.val i with
+  | nil => rw [hv] at h1; simp [embedded] at h1
+  | foreign => rw [hv] at h1; simp [embedded] at h1
+  | base a0 =>
+    rw [hv] at h1; simp [embedded] at h1; subst h1
+    simp only [GErrorIs.derive]
+    have hobj : obj (w.h ++ [cloneObj w.h a0 src]) w.h.length = cloneObj w.h a0 src := obj_append_len _ _
+    have horg : origin (w.h ++ [cloneObj w.h a0 src]) w.h.length = origin w.h a0 := cloneObj_origin g.wf a0 src []
+    refine g.extend [cloneObj w.h a0 src] (.base w.h.length) (O os i) _ w.h.length
+      (g.wf.alloc hgood) rfl (by simp) (by rw [hobj]; exact hsrcs) (by intro ty hx; cases hx) (by omega) ?_ ?_
+    · rw [val_append_lt _ h5, horg]; exact h6
+    · intro j b hj hb ho; rw [horg] at ho; exact hinj j b hj hb ho
+  | ext ty a0 =>
+    rw [hv] at h1; simp [embedded] at h1; subst h1
+    simp only [GErrorIs.derive]
+    let c := cloneObj w.h a0 src
+    have hobj : obj (w.h ++ [c, { c with extTy := some ty }]) (w.h.length + 1) = { c with extTy := some ty } := by
+      simp [obj]
+    have hwf2 : WF (w.h ++ [c, { c with extTy := some ty }]) := by
+      have := (g.wf.alloc hgood).alloc (GoodObj.mono hgood c { c with extTy := some ty } ⟨rfl, rfl, rfl⟩)
+      simpa using this
+    have horg : origin (w.h ++ [c, { c with extTy := some ty }]) (w.h.length + 1) = origin w.h a0 := by
+      have h0 : origin (w.h ++ [c, { c with extTy := some ty }]) (w.h.length + 1)
+          = origin (w.h ++ [c, { c with extTy := some ty }]) w.h.length := by
+        have e1 : obj (w.h ++ [c, { c with extTy := some ty }]) w.h.length = c := by simp [obj]
+        have hb : ∃ r, c.factoryRef = .base r := by
+          rcases g.wf.ref a0 with hr | ⟨r, hr, _, _, _⟩
+          · exact ⟨a0, by simp [c, cloneObj, hr]⟩
+          · exact ⟨r, by simp [c, cloneObj, hr]⟩
+        obtain ⟨r, hr⟩ := hb
+        unfold origin; rw [hobj, e1]; simp [hr]
+      rw [h0]; exact cloneObj_origin g.wf a0 src _
+    refine g.extend [c, { c with extTy := some ty }] (.ext ty (w.h.length + 1)) (O os i) _ (w.h.length + 1)
+      hwf2 rfl (by simp) (by rw [hobj]; exact hsrcs) (by intro _ _ hn; rw [hobj] at hn; exact absurd hn hnn)
+      (by omega) ?_ ?_
+    · rw [val_append_lt _ h5, horg]; exact h6
+    · intro j b hj hb ho; rw [horg] at ho; exact hinj j b hj hb ho
+
+
+theorem Good.root {w : World} {os : List Nat} {ss : List (List Val)} (g : Good w os ss)
+    (o : Obj) (x : Val) (hx : embedded x = some w.h.length) (ho : o.factoryRef = .nil ∧ o.srcErrors = [])
+    (hm : ∀ ty, x = .ext ty w.h.length → o.isFactory = true) :
+    Good ⟨w.h ++ [o], w.vals ++ [x]⟩ (os ++ [os.length]) (ss ++ [[]]) := by
+  have hobj : obj (w.h ++ [o]) w.h.length = o := obj_append_len _ _
+  have horg : origin (w.h ++ [o]) w.h.length = w.h.length := origin_root (by rw [hobj]; exact ho.1)
+  refine g.extend [o] x os.length [] w.h.length (g.wf.alloc (Or.inl ho)) hx (by simp)
+    (by rw [hobj]; exact ho.2) (by intro ty hxe _; rw [hobj]; exact hm ty hxe) (by rw [g.lo]; omega) ?_ ?_
+  · rw [g.lo, val_append_len, horg]; exact hx
+  · intro j b hj hb hoo
+    rw [horg] at hoo
+    obtain ⟨a0, h1, h2, _⟩ := g.val j hj
+    rw [h1] at hb; injection hb with hb; subst hb
+    have := g.wf.origin_lt h2
+    omega
+
+theorem pureForeign_isForeign {e : Val} (h : pureForeign e = true) : isForeign e = true := by
+  cases e <;> simp_all [pureForeign, isForeign]
+
+/-- one in-domain command keeps the world good, in step with the specification's bookkeeping -/
+theorem Good.step {w : World} {os : List Nat} {ss : List (List Val)} (g : Good w os ss) (c : Cmd)
+    (hd : c.inDomain w.vals.length = true) :
+    Good (exec w c) (specOriginStep os c) (specSourcesStep ss c) := by
+  cases c with
+  | newBase marked =>
+    cases marked
+    · exact g.root {} (.base w.h.length) rfl ⟨rfl, rfl⟩ (by intro ty hx; cases hx)
+    · have : exec w (.newBase true) = ⟨w.h ++ [{ isFactory := true }], w.vals ++ [.base w.h.length]⟩ := by
+        simp [exec, execWith, alloc, factoryOf_fresh (v := Val.base w.h.length) w.h {} rfl]
+      rw [this]
+      exact g.root { isFactory := true } (.base w.h.length) rfl ⟨rfl, rfl⟩ (by intro ty hx; cases hx)
+  | newExt ty marked =>
+    simp [Cmd.inDomain] at hd; subst hd
+    have : exec w (.newExt ty true) = ⟨w.h ++ [{ extTy := some ty, isFactory := true }], w.vals ++ [.ext ty w.h.length]⟩ := by
+      simp [exec, execWith, alloc, factoryOf_fresh (v := Val.ext ty w.h.length) w.h { extTy := some ty } rfl]
+    rw [this]
+    exact g.root { extTy := some ty, isFactory := true } (.ext ty w.h.length) rfl ⟨rfl, rfl⟩ (by intro _ _; rfl)
+  | call i m arg =>
+    simp only [Cmd.inDomain, Bool.and_eq_true, decide_eq_true_eq] at hd
+    obtain ⟨hi, harg⟩ := hd
+    obtain ⟨a, h1, _⟩ := g.val i hi
+    have hrecv : isG (w.val i) = true := by simp [isG, h1]
+    -- the plain derivation branch
+    have plain : ∀ argv, (m.isConvert && (embedded argv).isSome) = false →
+        (m.srcArg argv = .nil ∨ isForeign (m.srcArg argv) = true) →
+        Good ⟨(call w.h (w.val i) m argv).1, w.vals ++ [(call w.h (w.val i) m argv).2]⟩ (os ++ [O os i])
+          (ss ++ [if m.srcArg argv != .nil then S ss i ++ [m.srcArg argv] else S ss i]) := by
+      intro argv hc hs
+      rw [call_eq_derive _ _ _ _ hc]
+      exact g.deriveStep hi _ hs
+    cases hm : m.isConvert with
+    | false =>
+      have := plain (w.argVal arg) (by simp [hm]) (by simp [Meth.srcArg, hm])
+      simp only [Meth.srcArg, hm] at this
+      simpa [exec, execWith, specOriginStep, specSourcesStep, hm, O, S] using this
+    | true =>
+      cases arg with
+      | none =>
+        have := plain .nil (by simp [embedded]) (by simp [Meth.srcArg, hm])
+        simp only [Meth.srcArg, hm] at this
+        simpa [exec, execWith, specOriginStep, specSourcesStep, hm, O, S, World.argVal] using this
+      | foreign e =>
+        have hf := pureForeign_isForeign harg
+        have hne : e ≠ .nil := by intro h; subst h; simp [isForeign] at hf
+        have hng : (embedded e).isSome = false := by
+          have := isForeign_not_isG hf; simpa [isG] using this
+        have := plain e (by simp [hng]) (by simp [Meth.srcArg, hm, hf])
+        simp only [Meth.srcArg, hm] at this
+        simpa [exec, execWith, specOriginStep, specSourcesStep, hm, O, S, World.argVal, hne] using this
+      | value j =>
+        simp only [decide_eq_true_eq] at harg
+        obtain ⟨b, hb1, hb2, hb3, hb4, hb5, hb6⟩ := g.val j harg
+        have hc : call w.h (w.val i) m (w.val j) = (w.h, w.val j) :=
+          call_convert_gerror _ _ _ _ hrecv (by simp [hm, hb1])
+        have key := g.extend [] (w.val j) (O os j) (S ss j) b (by simpa using g.wf) hb1 (by simpa using hb2)
+          (by simpa using hb3) (by simpa using hb4) (by omega)
+          (by rw [val_append_lt _ hb5]; simpa using hb6)
+          (by intro j' b' hj' hb' ho; exact g.inj j j' b b' harg hj' hb1 hb' (by simpa using ho))
+        simpa [exec, execWith, specOriginStep, specSourcesStep, hm, O, S, World.argVal, hc] using key
+
 end GErrorIs
